@@ -189,6 +189,15 @@ func ZZ_C14_statusFn() {
 	if canaryActive && paused && condPaused {
 		nondet.Assert("C14.status.reason", w.Reason == "CrashLoopBackOff")
 	}
+	if canaryActive && paused {
+		// the Canary-Paused condition gives the same reason as status.reason, whatever reason it
+		// carried while it was already True
+		for _, c := range w.Conditions {
+			if c.Type == datadoghqv1alpha1.ConditionTypeEDSCanaryPaused {
+				nondet.Assert("C14.status.cond-paused-reason", c.Reason == string(w.Reason))
+			}
+		}
+	}
 	if canaryActive && paused && !condPaused {
 		// paused by the annotation alone, without a reason annotation
 		nondet.Assert("C14.status.reason-annotation", w.Reason == datadoghqv1alpha1.ExtendedDaemonSetStatusReasonUnknown)
